@@ -279,6 +279,14 @@ def check(case):
                         s.n_to_select = form
                         if thr == "before-last" and li == len(sched) - 1:
                             s.score_threshold = -1.0
+                        if thr == "none":
+                            # an unrelated selector of the same class and configuration is fitted on other data of the
+                            # same shape between the legs: the chain must continue from its OWN state
+                            pp = dict(cfg)
+                            if init is not None:
+                                pp["initialize"] = init
+                            sibling = sel.sibling_fit(kind, d, X, y, pp)  # noqa: F841 (kept alive)
+                            r.transitions += 1
                     w, exc = sel.fit_quiet(s, X, y, warm_start=li > 0)
                     r.transitions += 1
                     if exc is not None:
